@@ -154,6 +154,9 @@ class GenericGraphsAdapter(GenericQuadsBaseAdapter):
 
     @override
     def triple(self, terms: Iterable[Any]) -> Quad:
+        if self._graph_id is None:
+            msg = "triple outside of a graph: new graph was not started"
+            raise JellyConformanceError(msg)
         return Quad(*chain(terms, [self._graph_id]))
 
     @override
